@@ -3,10 +3,15 @@
 package main
 
 import (
+	"bufio"
 	"encoding/json"
 	"fmt"
+	"io"
 	"os"
+	"os/exec"
+	"runtime/debug"
 	"sort"
+	"strings"
 
 	"verif/harness/checks"
 	"verif/harness/core"
@@ -35,6 +40,12 @@ func main() {
 		fmt.Fprintln(os.Stderr, "tier must be quick or thorough")
 		os.Exit(2)
 	}
+	if os.Getenv("VERIF_SUPERVISED") == "" {
+		os.Exit(supervise(id, tier))
+	}
+	// legitimate executions recurse a few dozen frames; a runaway recursion
+	// should die quickly instead of eating a gigabyte of stack first
+	debug.SetMaxStack(64 << 20)
 	r := core.NewRun(id, tier)
 	core.PanicHook = func(v any, stack string) {
 		if fr := core.LibraryFrame(stack); fr != "" {
@@ -75,4 +86,84 @@ func replay(path string) int {
 	fmt.Printf("replay %s: still fails:\n%s", path, out)
 	fmt.Printf("VIOLATION property=%s replay=%s\n", f.Property, path)
 	return 1
+}
+
+// supervise runs the check in a child process. Go cannot recover from fatal
+// runtime errors (stack overflow, concurrent map access): when the child dies
+// of one and the dying goroutine was inside the library under test, that is a
+// finding of the check, not a broken check.
+func supervise(id, tier string) int {
+	cmd := exec.Command(os.Args[0], id, tier)
+	cmd.Env = append(os.Environ(), "VERIF_SUPERVISED=1")
+	cmd.Stdout = os.Stdout
+	stderr, err := cmd.StderrPipe()
+	if err != nil {
+		fmt.Fprintln(os.Stderr, "supervise:", err)
+		return 2
+	}
+	if err := cmd.Start(); err != nil {
+		fmt.Fprintln(os.Stderr, "supervise:", err)
+		return 2
+	}
+	// keep the head of a fatal report (the crashing goroutine comes first) and pass stderr through
+	var fatal []string
+	inFatal := false
+	breadcrumb := ""
+	rd := bufio.NewReaderSize(stderr, 1<<16)
+	for {
+		line, err := rd.ReadString('\n')
+		if line != "" {
+			if strings.HasPrefix(line, "BREADCRUMB ") {
+				breadcrumb = strings.TrimSpace(strings.TrimPrefix(line, "BREADCRUMB "))
+			} else {
+				if strings.HasPrefix(line, "fatal error:") || strings.Contains(line, "goroutine stack exceeds") {
+					inFatal = true
+				}
+				if inFatal && len(fatal) < 400 {
+					fatal = append(fatal, line)
+				}
+				if !inFatal || len(fatal) < 60 {
+					io.WriteString(os.Stderr, line)
+				}
+			}
+		}
+		if err != nil {
+			break
+		}
+	}
+	werr := cmd.Wait()
+	code := 0
+	if werr != nil {
+		if ee, ok := werr.(*exec.ExitError); ok {
+			code = ee.ExitCode()
+		} else {
+			code = 2
+		}
+	}
+	if code == 0 || code == 1 || len(fatal) == 0 {
+		return code
+	}
+	kind := ""
+	for _, l := range fatal {
+		if strings.HasPrefix(l, "fatal error:") {
+			kind = strings.TrimSpace(strings.TrimPrefix(l, "fatal error:"))
+			break
+		}
+	}
+	frame := core.LibraryFrame(strings.Join(fatal, ""))
+	if frame == "" || !(strings.Contains(kind, "stack overflow") || strings.Contains(kind, "concurrent map")) {
+		fmt.Fprintf(os.Stderr, "INTERNAL-ERROR: check process died (%s) outside the library under test\n", kind)
+		return 2
+	}
+	r := core.NewRun(id, tier)
+	r.Rule("the check process died of an unrecoverable runtime error inside the library under test; coverage of the run is lost, the crash itself is the finding")
+	r.Evaluations.Add(1)
+	r.States.Add(1)
+	r.Transitions.Add(1)
+	r.Distinct("crash")
+	r.Distinct("crash/" + breadcrumb)
+	r.Sample(map[string]any{"fatal_error": kind, "library_frame": frame, "while": breadcrumb})
+	r.Cap("check process crashed")
+	r.Violate("fatal-runtime-error "+kind+" "+frame, fmt.Sprintf("the Go runtime aborted the process (%s) in %s while exploring %s", kind, frame, breadcrumb), nil)
+	return r.Finish()
 }
